@@ -138,6 +138,15 @@ def run(ctx):
             if fld in ('name', 'path'):
                 ms = ms + ms[:6]
             archives.append(('long-%s byte %02x' % (fld, hb), arc.archive(ms)))
+    # single header bytes that end up in the output as characters: the OS-type byte of level 1-3 headers (shown as an OS name in
+    # the permission column when the member carries no permissions) over all 256 values, and the level-0 attribute byte
+    for lvl in (1, 2, 3):
+        for half in (0, 1):
+            ms = []
+            for v in range(half * 128, half * 128 + 128):
+                mm = H.simple_member(b'o%03d' % v, DATA, level=lvl, os_type=v)
+                ms.append(arc.Member(mm, DATA, DATA))
+            archives.append(('os-type L%d bytes %02x..%02x' % (lvl, half * 128, half * 128 + 127), arc.archive(ms)))
     # error paths: a regular file in the way of a parent directory; unsupported method
     for hb in (0x1b, 0x07, 0x9b, 0xff if False else 0xfe, 0x7f):
         bn = b'blo' + bytes([hb]) + b'cker'
@@ -150,7 +159,7 @@ def run(ctx):
     jobs = []
     n = 0
     for desc, A in archives:
-        modes = MODES if (ctx.tier == 'thorough' or desc.startswith(('error-path', 'long-'))) else rnd.sample(MODES, 8) + ['v', 'vv']
+        modes = ['l', 'lv', 'v', 'vv', 't', 'xn', 'pq'] if desc.startswith('os-type') else MODES if (ctx.tier == 'thorough' or desc.startswith(('error-path', 'long-'))) else rnd.sample(MODES, 8) + ['v', 'vv']
         if desc.startswith(('name', 'path', 'long-name', 'long-path')):
             modes = list(modes) + ['x', 'e']
         for mode in sorted(set(modes)):
@@ -174,7 +183,7 @@ def run(ctx):
     ctx.cov['fields'] = fields
     ctx.cov['byte_values_planted_per_field'] = {f: len([1 for (ff, x) in planted if ff == f]) for f in fields}
     ctx.cov['exhaustive'] = all(v == 255 for v in ctx.cov['byte_values_planted_per_field'].values())
-    ctx.cov['rule'] = ('one archive per (field, level, group of 16 byte values); every byte 0x01..0xFF is planted in every field; strings of 200..1000 bytes with a hostile byte last / first / at 254..256; each archive is '
+    ctx.cov['rule'] = ('one archive per (field, level, group of 16 byte values); every byte 0x01..0xFF is planted in every field; all 256 values of the OS-type byte at levels 1-3; strings of 200..1000 bytes with a hostile byte last / first / at 254..256; each archive is '
                        'run through the listed commands as user nobody under the fs guard; distinct by archive+command; non-trivial = the run produced output')
     ctx.sample({'archive': archives[0][0], 'hex': archives[0][1].hex()[:160], 'modes': MODES})
     shutil.rmtree(base, ignore_errors=True)
